@@ -31,5 +31,33 @@ def dynReqAsTemporal : Bool := false
 /-- `_runMonitors` hands a sub-scenario monitor's `terminate` up as a termination reason -/
 def monTermPropagates : Bool := false
 
-def sem : Sem := ⟨runOrder, dynReqAsTemporal, monTermPropagates⟩
+/-- calls of the `try:` body of `Simulation.__init__`, in source order -/
+def initOrder : List String :=
+  ["begin", "setup", "start", "update", "run", "stopRemaining", "recordFinal", "result"]
+
+/-- `Simulation.recordCurrentState`, in source order (the initial records are guarded by `step == 0`) -/
+def recordOrder : List String :=
+  ["initial", "series", "trajectory"]
+
+/-- `DynamicScenario._runMonitors`, in source order -/
+def monitorsOrder : List String :=
+  ["own", "subs", "stopSelf"]
+
+/-- `DynamicScenario._invokeInner`, in source order -/
+def invokeOrder : List String :=
+  ["start", "assign", "fresh", "stepAll", "keep", "returnIfNone", "yield", "dropStopped"]
+
+/-- `DynamicScenario._stop`, in source order -/
+def stopOrder : List String :=
+  ["monitors", "clearMonitors", "subs", "iterator", "endScenario"]
+
+/-- `_checkSimulationTerminationConditions` also asks the sub-scenarios / only the running ones -/
+def termSimRecurses : Bool := true
+def termSimRunningOnly : Bool := true
+/-- `_evaluateRecordedExprsAt` asks every scenario of `_subScenarios`, running or not -/
+def recordAllSubs : Bool := true
+/-- `Behavior._step`: a behavior that has ended yields the empty action tuple -/
+def behaviorEndIsEmpty : Bool := true
+
+def sem : Sem := ⟨runOrder⟩
 end Scenic.Gen
